@@ -204,3 +204,31 @@ pub fn boundary_scenarios(cfg: &AlphaCfg, depth: usize, thorough: bool) -> Vec<S
     }
     v
 }
+
+/// Root whose wallet holds very large coins (2^110 and 2^100-ish of MEL, SYM and ERG; every total stays below 2^127).
+pub fn root_huge(net: NetID) -> Node {
+    let w = world_mel(net, 1 << 110, 0);
+    let mut u = w.genesis.clone();
+    let big = 1u128 << 110;
+    let f = tx_t(
+        TxKind::Faucet,
+        vec![],
+        vec![
+            out_t(big + 1, Denom::Mel), out_t((1 << 100) + 12345, Denom::Mel), out_t((1 << 101) + 777, Denom::Mel),
+            out_t(big + 2, Denom::Sym), out_t((1 << 100) + 54321, Denom::Sym), out_t((1 << 101) + 999, Denom::Sym),
+            out_t(big + 3, Denom::Erg), out_t((1 << 100) + 11111, Denom::Erg),
+        ],
+        0,
+        b"huge".to_vec(),
+    );
+    u.apply_tx(&f).expect("huge faucet");
+    let mut universe = vec![CoinID::zero_zero(), faucet_marker(f.hash_nosigs())];
+    for i in 0..f.outputs.len() {
+        universe.push(f.output_coinid(i as u8));
+    }
+    let s = u.seal(None);
+    let model = model_of(&s, &universe, &builtin_pool_keys(), &[f]);
+    let h0 = s.header();
+    std::mem::forget(w);
+    Node::new_root(Real::Sealed(s), model, format!("genesis[{:?}, huge coins]", net), json!({"root": "huge-coins", "network": format!("{:?}", net)}), vec![h0])
+}
